@@ -6,6 +6,7 @@ import (
 	"fmt"
 	"os"
 	"path/filepath"
+	"regexp"
 	"sort"
 	"strconv"
 	"strings"
@@ -19,19 +20,19 @@ type PropSpec struct {
 		What  string `json:"what"`
 		Bound string `json:"bound"`
 	} `json:"bounded"`
-	Notes       []string `json:"notes"`
-	Assumptions []string `json:"assumptions"`
+	Notes       []string          `json:"notes"`
+	Assumptions []string          `json:"assumptions"`
 	Oracles     map[string]string `json:"oracles"` // function key -> replay oracle name
 }
 
 type Finding struct {
-	Kind       string `json:"kind"` // finding | fixed
-	Property   string `json:"property"`
-	Obligation string `json:"obligation"`
-	What       string `json:"what"`
-	Witness    string `json:"witness"`
-	Commit     string `json:"commit,omitempty"`
-	Oracle     string `json:"oracle,omitempty"`
+	Kind         string          `json:"kind"` // finding | fixed
+	Property     string          `json:"property"`
+	Obligation   string          `json:"obligation"`
+	What         string          `json:"what"`
+	Witness      string          `json:"witness"`
+	Commit       string          `json:"commit,omitempty"`
+	Oracle       string          `json:"oracle,omitempty"`
 	WitnessInput json.RawMessage `json:"witness_input,omitempty"`
 }
 
@@ -44,16 +45,16 @@ func readJSON(path string, v interface{}) error {
 }
 
 type checkRun struct {
-	g        *Global
-	prop     string
-	tier     string
-	seed     int64
-	spec     PropSpec
-	results  []*FuncResult
-	obligs   []*Obligation
-	scratch  string
-	vdir     string
-	repo     string
+	g           *Global
+	prop        string
+	tier        string
+	seed        int64
+	spec        PropSpec
+	results     []*FuncResult
+	obligs      []*Obligation
+	scratch     string
+	vdir        string
+	repo        string
 	oracleCache map[string]oracleResult
 }
 
@@ -118,6 +119,11 @@ func runCheck(repo, vdir, prop, tier string, seed int64, writeEvidence bool, qui
 	for _, n := range lock[prop] {
 		locked[n] = true
 	}
+	unclaimed := map[string]bool{}
+	for _, n := range lock["unclaimed:"+prop] {
+		unclaimed[n] = true
+	}
+	var vanished []string
 	findingFor := func(name string) *Finding {
 		for i := range findings {
 			f := &findings[i]
@@ -165,10 +171,18 @@ func runCheck(repo, vdir, prop, tier string, seed int64, writeEvidence bool, qui
 	for _, n := range lockedNames {
 		o, ok := byName[n]
 		if !ok {
-			fn := n[:strings.Index(n, "/")]
+			fn := n
+			if i := strings.Index(n, "/"); i >= 0 {
+				fn = n[:i]
+			}
 			reason := "locked obligation is no longer generated from the working tree"
 			if msg, ok := outside[fn]; ok {
 				reason = "function left the verified subset (" + msg + "); its locked obligation can no longer be generated"
+			} else if siteDerived(n) {
+				// the program point this obligation belonged to (an index expression, a call, an allocation) is gone or
+				// renumbered: nothing is left to prove for it; whatever the changed code generates instead is checked under 2.
+				vanished = append(vanished, n)
+				continue
 			}
 			report(n, nil, reason)
 			continue
@@ -186,7 +200,16 @@ func runCheck(repo, vdir, prop, tier string, seed int64, writeEvidence bool, qui
 			knownLines = append(knownLines, fmt.Sprintf("KNOWN-FINDING: property=%s %s: %s (witness: %s)", prop, o.Name, f.What, f.Witness))
 			continue
 		}
+		if !o.Vacuity && !unclaimed[o.Name] {
+			// neither claimed nor recorded as unclaimed when the lock was written: an obligation the current code generates
+			// (changed code: a new call's precondition, a new index expression, …) that the verifier cannot discharge
+			report(o.Name, o, fmt.Sprintf("obligation generated from changed code is not discharged (%s): %s", o.Status, o.Human))
+			continue
+		}
 		unlockedUndecided = append(unlockedUndecided, o.Name+" ("+o.Status+")")
+	}
+	if len(vanished) > 0 && !quiet {
+		fmt.Printf("  note: %d locked site-derived obligations are no longer generated (code shape changed), e.g. %s\n", len(vanished), vanished[0])
 	}
 	// vacuity: a contradictory precondition set is an engine/contract error surfaced as a violation of the check itself
 	for _, o := range all {
@@ -449,18 +472,35 @@ func cmdLock(args []string) {
 			}
 		}
 		var names []string
+		unc := []string{}
 		bad := 0
 		for _, n := range order {
 			if okCount[n] == *runs {
 				names = append(names, n)
 			} else {
 				bad++
+				unc = append(unc, n)
 				fmt.Printf("  not locked: %s\n", n)
 			}
 		}
 		lock[id] = names
+		lock["unclaimed:"+id] = unc
 		fmt.Printf("%s: locked %d obligations (%d not discharged)\n", id, len(names), bad)
 	}
 	b, _ := json.MarshalIndent(lock, "", " ")
 	os.WriteFile(filepath.Join(*vdir, "obligations.lock.json"), b, 0o644)
+}
+
+var reContractDerived = regexp.MustCompile(`^(post\.|assert:|vacuity|loop\d+\.[^#]*\.(init|preserve)$|loop\d+\.decreases|lemma\.)`)
+
+// siteDerived: obligations named after a program point of the code (index#k, slice#k, makelen#k, frame#k, pre@callee#k,
+// nilderef#k, …) rather than after a clause of the contract file.
+func siteDerived(name string) bool {
+	k := name
+	if i := strings.Index(name, "/"); i >= 0 {
+		k = name[i+1:]
+	} else {
+		return false
+	}
+	return !reContractDerived.MatchString(k)
 }
